@@ -1,4 +1,5 @@
 import ZChain.Proofs.Notarize
+import ZChain.Generated.C31
 import Mathlib.Algebra.Field.ZMod
 /-!
 # C31 — A block counts as notarized only with enough verified tickets
@@ -42,8 +43,8 @@ def stepClean (hOf : Nat → F) (slotOf : Nat → Nat) (nd : Node F) : CleanMsg 
     processVerifyBlock nd { id := id, gen := gen, slot := slotOf id, h := hOf id, tickets := [], notarized := false }
   | .know id gen => know nd { id := id, gen := gen, slot := slotOf id, h := hOf id, tickets := [], notarized := false }
 
-def initNode (pks : List F) (pools : List (List Nat)) (thresholds : List Nat) : Node F :=
-  { pks := pks, pools := pools, thresholds := thresholds, blocks := [], store := [], roundNotarized := [], complete := [] }
+def initNode (pks : List F) (mbs : List (Nat × List Nat)) (rounds : List Nat) (pct : Nat := 66) : Node F :=
+  { pks := pks, mbs := mbs, rounds := rounds, pct := pct, blocks := [], store := [], roundNotarized := [], complete := [] }
 
 /-- invariant of the reachable states. `pkOf s v` is the key of miner `v` in the pool of slot `s`'s magic block,
 `thrOf s` that slot's threshold. -/
@@ -122,7 +123,7 @@ omit [Field F] [DecidableEq F] in
 theorem setBlock_fields (nd : Node F) (b : Blk F) :
     ((nd.setBlock b).pk? = nd.pk?) ∧ ((nd.setBlock b).threshold = nd.threshold) ∧ (nd.setBlock b).store = nd.store ∧
     (nd.setBlock b).roundNotarized = nd.roundNotarized := by
-  unfold Node.setBlock; split <;> refine ⟨?_, ?_, rfl, rfl⟩ <;> (funext; simp [Node.pk?, Node.threshold])
+  unfold Node.setBlock; split <;> refine ⟨?_, ?_, rfl, rfl⟩ <;> (funext; simp [Node.pk?, Node.threshold, Node.pool])
 
 omit [Field F] [DecidableEq F] in
 theorem setBlock_ids (nd : Node F) (b : Blk F) (hn : (nd.blocks.map (·.id)).Nodup) :
@@ -448,17 +449,17 @@ theorem good_handleTicket {pkOf : Nat → Nat → Option F} {thrOf : Nat → Nat
   · rw [if_neg hv]; exact g
 
 /-- every state reachable by clean messages satisfies the invariant. -/
-theorem reachable_good (pks : List F) (pools : List (List Nat)) (thresholds : List Nat) (hOf : Nat → F) (slotOf : Nat → Nat)
+theorem reachable_good (pks : List F) (mbs : List (Nat × List Nat)) (rounds : List Nat) (hOf : Nat → F) (slotOf : Nat → Nat)
     (msgs : List (CleanMsg F)) :
-    Good (initNode pks pools thresholds).pk? (initNode pks pools thresholds).threshold hOf slotOf
-      (msgs.foldl (stepClean hOf slotOf) (initNode pks pools thresholds)) := by
-  have h0 : Good (initNode pks pools thresholds).pk? (initNode pks pools thresholds).threshold hOf slotOf
-      (initNode pks pools thresholds) := by
+    Good (initNode pks mbs rounds).pk? (initNode pks mbs rounds).threshold hOf slotOf
+      (msgs.foldl (stepClean hOf slotOf) (initNode pks mbs rounds)) := by
+  have h0 : Good (initNode pks mbs rounds).pk? (initNode pks mbs rounds).threshold hOf slotOf
+      (initNode pks mbs rounds) := by
     refine ⟨fun _ _ => rfl, fun _ => rfl, by simp [initNode], ?_, ?_, ?_, ?_, ?_, ?_, by simp [initNode], ?_⟩ <;>
       simp [initNode]
   have : ∀ (l : List (CleanMsg F)) (nd : Node F),
-      Good (initNode pks pools thresholds).pk? (initNode pks pools thresholds).threshold hOf slotOf nd →
-      Good (initNode pks pools thresholds).pk? (initNode pks pools thresholds).threshold hOf slotOf
+      Good (initNode pks mbs rounds).pk? (initNode pks mbs rounds).threshold hOf slotOf nd →
+      Good (initNode pks mbs rounds).pk? (initNode pks mbs rounds).threshold hOf slotOf
         (l.foldl (stepClean hOf slotOf) nd) := by
     intro l
     induction l with
@@ -477,9 +478,9 @@ non-miners or from miners of ANOTHER magic block, in any order) and of proposals
 tickets, a block the node treats as notarized — by its flag or by the round's notarized list — holds at least the
 threshold of its round's magic block many tickets, all of them valid signatures on the block's hash by members of the
 miner pool of the magic block in force for the block's round, from pairwise distinct miners. -/
-theorem notarized_sound_partial (pks : List F) (pools : List (List Nat)) (thresholds : List Nat) (hOf : Nat → F)
+theorem notarized_sound_partial (pks : List F) (mbs : List (Nat × List Nat)) (rounds : List Nat) (hOf : Nat → F)
     (slotOf : Nat → Nat) (msgs : List (CleanMsg F)) :
-    let nd0 := initNode pks pools thresholds
+    let nd0 := initNode pks mbs rounds
     let nd := msgs.foldl (stepClean hOf slotOf) nd0
     (∀ b ∈ nd.blocks, b.notarized = true →
       nd0.threshold (slotOf b.id) ≤ b.tickets.length ∧ (b.tickets.map (·.verifier)).Nodup ∧
@@ -488,7 +489,7 @@ theorem notarized_sound_partial (pks : List F) (pools : List (List Nat)) (thresh
       nd0.threshold (slotOf b.id) ≤ b.tickets.length ∧ (b.tickets.map (·.verifier)).Nodup ∧
       ∀ t ∈ b.tickets, ValidT (nd0.pk? (slotOf b.id)) (hOf b.id) t) := by
   intro nd0 nd
-  have g := reachable_good pks pools thresholds hOf slotOf msgs
+  have g := reachable_good pks mbs rounds hOf slotOf msgs
   refine ⟨fun b hb hn => ⟨g.bnot b hb hn, g.bnodup b hb, g.bvalid b hb⟩, ?_⟩
   intro id hid
   obtain ⟨b, hb, hbid, hn⟩ := g.rnot id hid
@@ -498,7 +499,7 @@ omit [DecidableEq F] in
 /-- membership in the pool is what `ValidT` asks: a ticket of a node that is no miner of the round's magic block is
 never valid, whatever its signature. -/
 theorem validT_member (nd : Node F) (slot : Nat) (h : F) (t : Ticket F) (hv : ValidT (nd.pk? slot) h t) :
-    (nd.pools.getD slot []).contains t.verifier = true := by
+    (nd.pool slot).contains t.verifier = true := by
   obtain ⟨pk, hpk, _⟩ := hv
   unfold Node.pk? at hpk
   by_contra hc
@@ -511,7 +512,7 @@ miner of the round's magic block — and, by C32, the aggregate equation only (e
 theorem verifyNotarization_partial (nd : Node F) (slot : Nat) (h : F) (ts : List (Ticket F))
     (hv : verifyNotarization nd slot h ts = true) :
     nd.threshold slot ≤ ts.length ∧ (ts.map (·.verifier)).Nodup ∧
-      (∀ t ∈ ts, (nd.pools.getD slot []).contains t.verifier = true) := by
+      (∀ t ∈ ts, (nd.pool slot).contains t.verifier = true) := by
   unfold verifyNotarization at hv
   split at hv
   · cases hv
@@ -539,7 +540,7 @@ instance : Fact (Nat.Prime 7) := ⟨by decide⟩
 abbrev Z7 := ZMod 7
 
 /-- three miners with keys 2, 3, 4: threshold ceil(66 % · 3) = 2; block 0 with message point 1. -/
-def nd0 : Node Z7 := initNode [2, 3, 4] [[0, 1, 2]] [2]
+def nd0 : Node Z7 := initNode [2, 3, 4] [(0, [0, 1, 2])] [1]
 
 /-- FULL statement (false): after any sequence of received messages a block treated as notarized has at least
 `threshold` valid tickets of distinct miners. Messages: the handlers of the model. -/
@@ -605,7 +606,7 @@ theorem notarized_sound_false : ¬ NotarizedSound := by
 
 /-- two magic blocks: slot 0 has miners 0,1,2,3 and slot 1 has miners 0,1,4,5 (threshold 3 each). Tickets validly signed
 by nodes 4 and 5 are refused for a block of slot 0 — the membership test is relative to the round's magic block. -/
-def nd2 : Node Z7 := initNode [2, 3, 4, 5, 6, 1] [[0, 1, 2, 3], [0, 1, 4, 5]] [3, 3]
+def nd2 : Node Z7 := initNode [2, 3, 4, 5, 6, 1] [(0, [0, 1, 2, 3]), (100, [0, 1, 4, 5])] [50, 200]
 
 example :
     let b : Blk Z7 := { id := 0, gen := 1, slot := 0, h := 1, tickets := [⟨0, 2, 0⟩, ⟨4, 6, 0⟩, ⟨5, 1, 0⟩], notarized := false }
@@ -617,18 +618,59 @@ example :
 /-- `VerifyNotarization` refuses a verifier id that appears twice, whatever the two signatures are: the same ticket in
 another encoding, or a signature split into `s+d`, `s−d` (4 miners, threshold 3). -/
 example :
-    let nd : Node Z7 := initNode [2, 3, 4, 5] [[0, 1, 2, 3]] [3]
+    let nd : Node Z7 := initNode [2, 3, 4, 5] [(0, [0, 1, 2, 3])] [1]
     verifyNotarization nd 0 1 [⟨0, 2, 0⟩, ⟨1, 3, 0⟩, ⟨1, 3, 1⟩] = false ∧
     verifyNotarization nd 0 1 [⟨0, 2, 0⟩, ⟨1, 4, 0⟩, ⟨1, 2, 0⟩] = false ∧
     verifyNotarization nd 0 1 [⟨0, 2, 0⟩, ⟨1, 3, 0⟩, ⟨2, 4, 0⟩] = true := by
   decide
 
+/-- a SHRINKING view change: 7 miners from round 0, 4 miners (0..3) from round 100, in force from round 104
+(`mbRoundOffset`). Slot 0 = round 101 still belongs to the old magic block — pool of 7, threshold 5 — slot 1 = round 104
+to the new one — pool of 4, threshold 3. Pool and threshold come from the SAME `mbOf`. -/
+def nd3 : Node Z7 := initNode [2, 3, 4, 5, 6, 1, 2] [(0, [0, 1, 2, 3, 4, 5, 6]), (100, [0, 1, 2, 3])] [101, 104]
+
+example : [99, 100, 103, 104, 105].map (mbOf nd3.mbs) = [0, 0, 0, 1, 1] := by decide
+example : (nd3.pool 0, nd3.threshold 0, nd3.pool 1, nd3.threshold 1) = ([0, 1, 2, 3, 4, 5, 6], 5, [0, 1, 2, 3], 3) := by decide
+/-- three valid tickets of the old set (miners 4, 5, 6: 6·1, 1·1, 2·1) in round 101: the new block's threshold (3) is met,
+the round's own (5) is not — refused; five valid tickets are accepted; in round 104 three of the new set suffice. -/
+example :
+    let b : Blk Z7 := { id := 0, gen := 5, slot := 0, h := 1, tickets := [⟨4, 6, 0⟩, ⟨5, 1, 0⟩, ⟨6, 2, 0⟩], notarized := false }
+    (handleNotarizedBlock nd3 b).roundNotarized = [] ∧
+    (handleNotarizedBlock nd3 { b with tickets := b.tickets ++ [⟨0, 2, 0⟩, ⟨1, 3, 0⟩] }).roundNotarized = [0] ∧
+    (handleNotarizedBlock nd3 { b with slot := 1, gen := 1, tickets := [⟨0, 2, 0⟩, ⟨1, 3, 0⟩, ⟨2, 4, 0⟩] }).roundNotarized = [0] := by
+  decide
+
 /-- non-vacuity of the partial theorem: an honest run over `ZMod 7` reaches notarization with two valid tickets. -/
 example :
     let nd := [CleanMsg.proposal 0 1, CleanMsg.ticket 0 0 2, CleanMsg.ticket 0 2 5, CleanMsg.ticket 0 1 3,
-      CleanMsg.ticket 0 0 2].foldl (stepClean (fun _ => (1 : Z7)) (fun _ => 0)) (initNode [2, 3, 4] [[0, 1, 2]] [2])
+      CleanMsg.ticket 0 0 2].foldl (stepClean (fun _ => (1 : Z7)) (fun _ => 0)) (initNode [2, 3, 4] [(0, [0, 1, 2])] [1])
     (nd.blocks.map (fun b => (b.id, b.notarized, b.tickets.length))) = [(0, true, 2)] ∧ nd.roundNotarized = [0] := by
   decide
 end Witness
+
+/-! ## which magic-block accessor each site uses (table generated from the current source by `harness/cmd/xc31`)
+
+The model has ONE function `mbOf` for "the magic block of a round". The code has two accessors, `GetMagicBlock(round)`
+(applies the view-change offset) and `GetMagicBlockNoOffset(round)`; the threshold (`reachedNotarization`), the signer
+lookup (`VerifyTickets` → `GetMiners(round)` → pool `GetNode`) and the magic-block presence test must all use the
+former, or the sites disagree about the round's magic block during the four rounds after a view change. -/
+section Accessors
+open ZChain.Generated.C31
+
+def accessorsOf (f : String) : Option (List String) := (accessors.find? (·.1 == f)).map (·.2)
+
+theorem accessors_expected :
+    accessorsOf "reachedNotarization" = some ["GetMagicBlock"] ∧
+    accessorsOf "VerifyTickets" = some ["GetMiners", "pl.GetNode"] ∧
+    accessorsOf "GetMiners" = some ["GetMagicBlock"] ∧
+    accessorsOf "VerifyRelatedMagicBlockPresence" = some ["GetMagicBlock"] ∧
+    accessorsOf "GetMagicBlock" = some ["mbRoundOffset", "MagicBlockStorage", "MagicBlockStorage"] ∧
+    accessorsOf "VerifyNotarization" = some [] ∧
+    accessorsOf "UpdateBlockNotarization" = some ["VerifyRelatedMagicBlockPresence"] ∧
+    accessorsOf "VerifyBlockNotarization" = some ["VerifyRelatedMagicBlockPresence"] ∧
+    accessorsOf "AddVerificationTicket" = some [] ∧ accessorsOf "MergeVerificationTickets" = some [] ∧
+    accessorsOf "GetNotarizationThresholdCount" = some [] := by
+  decide
+end Accessors
 
 end ZChain.Notarize
